@@ -116,6 +116,9 @@ void c05_inst_all(std::iostream& s, const String& name, std::vector<char>& buf, 
     // the constructors that leave the arrays unallocated (empty-container clause)
     SparseMatrixCSR<DT, IT> f4(3, 5); SparseMatrixBCSR<DT, IT, 2, 3> g4(3, 5); DenseVector<DT, IT> a4(Index(0)); DenseVectorBlocked<DT, IT, 3> b4(Index(0));
     SparseVector<DT, IT> c4(Index(7)); DenseMatrix<DT, IT> e4(3, 5);
+    // growth paths that replace the arrays of a live container (the size tables the serialiser reads must follow)
+    c4(Index(1), DT(1)); (void)c4(Index(1));
+    SparseVectorBlocked<DT, IT, 2> d4(Index(7)); d4(Index(1), Tiny::Vector<DT, 2>(DT(1))); (void)d4(Index(1));
   }
   {
     typedef DenseVector<DT, IT> V;
